@@ -94,3 +94,19 @@ PROPS['C10']['outside'] = ['PyPackageSearcher (needs __import__/zipimport loader
 PROPS['C19']['modules'] = ['harness.hcompile', 'harness.c19_borrowers']
 PROPS['C19']['files'] = COMPILE_FILES + ['pysmi/borrower/base.py', 'pysmi/borrower/pyfile.py', 'pysmi/borrower/anyfile.py']
 PROPS['C19']['functions'] += ['pysmi.borrower.base.AbstractBorrower.getData', 'pysmi.borrower.base.AbstractBorrower.setOptions']
+
+PROPS['C18'] = dict(
+    modules=['harness.c18_index'], level='other',
+    files=['pysmi/codegen/jsondoc.py', 'pysmi/compiler.py'],
+    explanation=XH + '. C18: genIndex/buildIndex with sibling arcs as symbolic decimal strings, symbolic tree-shape flags and build histories.',
+    functions=['pysmi.codegen.jsondoc.JsonCodeGen.genIndex', 'pysmi.compiler.MibCompiler.buildIndex'],
+    bounds='2 modules, <=3 OIDs each, sibling arcs of <=2 decimal digits, histories of <=2 incremental builds + one re-index',
+    stubs=['json in pysmi.codegen.jsondoc replaced by an identity codec'],
+    outside=['arcs with more than two digits', 'more than two modules / three builds', 'JSON text formatting'],
+    assumptions=['MibInfo.oids are dotted decimal strings as produced by IntermediateCodeGen (C01)'])
+MANIFEST_TEXT['C18'] = dict(
+    technique='CrossHair symbolic execution of JsonCodeGen.genIndex / buildIndex with symbolic digit-string arcs',
+    level_text='Solver-exhaustive within bounds: all pairs of sibling arcs up to two decimal digits (as symbolic strings), all '
+               'nesting/overlap/summary flags, all orders of incremental builds of two modules, re-index fixpoint.',
+    level_note='Trusted: CrossHair/z3 string model; json replaced by identity. Outside: longer arcs, more modules.')
+_finalise()
